@@ -3,11 +3,12 @@
    positive, nat stay Coq datatypes. No Extract Constant of our own. *)
 Require Extraction.
 Require ExtrOcamlBasic.
-From Lospan Require Import Base.Bytes Base.AES Base.Outcome Gen.Consts Model.CMAC Model.FrameTypes Model.Crypto Model.MacCmd
-  Spec.RFC4493 Spec.MacLayout.
+From Lospan Require Import Base.Bytes Base.AES Base.Outcome Gen.Consts Model.CMAC Model.FrameTypes Model.Crypto Model.MacCmd Model.Frame
+  Spec.RFC4493 Spec.MacLayout Spec.LoRaFrame.
 Extraction Language OCaml.
 Extraction "lospan_model.ml"
   aes_enc aes_dec aescmac rfc4493 frame_crypt payload_crypt data_mic buffer_mic
   bytes_eqb le_val le_bytes devaddr_of_u32 devaddr_u32 err_code mtype_uplink
   cmd_encode cmd_decode new_cmd cmd_len new_set set_add set_remove set_list set_encoded_length set_size set_encode
-  decode_bounded layout_payload layout_fields.
+  decode_bounded layout_payload layout_fields
+  decode encode mk_slice new_phy spec_decode spec_cmds spec_set s_adr s_adrackreq s_ack s_fpending s_is_data s_uplink cmd_payload_dec.
